@@ -134,13 +134,13 @@ def run(F, R, tier, cfg):
             if o[0] == "call" and o[1].endswith("::max") and len(o[2]) == 2:
                 lo = tokens(o[2][1])
                 hi = o[2][0]
-                if "field:min_refetch_delay" in lo and any(t.endswith("as std::ops::Add<std::time::Duration>>::add") for t in lo):
+                if "field:min_refetch_delay" in lo and any(t.endswith("as core::ops::arith::Add<core::time::Duration>>::add") for t in lo):
                     if hi[0] == "call" and hi[1].endswith("::min"):
                         a, c = tokens(hi[2][0]), tokens(hi[2][1])
                         if "field:refetch_interval" in a and "field:min_expiry_threshold" in c and any(t.endswith("::earliest_expiry") for t in c):
                             ok, kind = True, "success"
             # failure: now + max(backoff.duration(attempts), min_delay)
-            if o[0] == "call" and o[1].endswith("as std::ops::Add<std::time::Duration>>::add") and len(o[2]) == 2:
+            if o[0] == "call" and o[1].endswith("as core::ops::arith::Add<core::time::Duration>>::add") and len(o[2]) == 2:
                 d = o[2][1]
                 if d[0] == "call" and d[1].endswith("::max") and "field:min_refetch_delay" in tokens(d[2][1]) \
                         and any(t.endswith("::duration") for t in tokens(d[2][0])) and "field:backoff" in tokens(d[2][0]):
